@@ -131,6 +131,10 @@ func zzvSANewWorld(t *testing.T, in *zzvSAIn, key, realCallbacks bool, seed int6
 		c.Sleep.Enabled = true
 		c.Sleep.PollInterval = time.Hour
 		c.Sleep.PersistState = false
+		// a local exit route: X then has a routing table to send to a new peer (SendFullTable), which marks the end
+		// of handlePeerConnected for the PeerConnected step
+		c.Exit.Enabled = true
+		c.Exit.Routes = []string{"10.99.0.0/16"}
 		if key {
 			c.Management.SigningPublicKey = hex.EncodeToString(w.kp.PublicKey[:])
 		}
@@ -347,15 +351,17 @@ func (w *zzvSAWorld) step(a zzvSAAct) (res string, fwd []string, detail string) 
 		name := fmt.Sprintf("%s_%d", a.P, w.nNew)
 		mark := w.lastSeq()
 		p := w.dial(name)
-		// handlePeerConnected: OnPeerConnected (pending wake) then SendFullTable -> a ROUTE_ADVERTISE follows
-		zzvWaitFor(300*time.Millisecond, func() bool {
+		// handlePeerConnected: OnPeerConnected (pending wake), then SendFullTable -> a ROUTE_ADVERTISE follows it
+		if !zzvWaitFor(zzvSAWait, func() bool {
 			for _, f := range w.m.Net.Frames() {
 				if f.Seq > mark && f.From == "X" && f.To == name && f.Type == protocol.FrameRouteAdvertise {
 					return true
 				}
 			}
 			return false
-		})
+		}) {
+			w.t.Fatalf("zzv: X sent no routing table to the new peer %s (end of handlePeerConnected not observable)", name)
+		}
 		res = "none"
 		set := map[string]bool{}
 		for _, f := range w.sleepWakeFrames(mark) {
